@@ -85,30 +85,30 @@ theorem inv4_stepCasC {s s' : State} {t : Tid} {o : Ord} {loc : Loc} {exp new ob
           have h2 := h3.bit; rw [hw, hok3, h1] at h2; cases h2
         have hsc : ∀ u, ((setPc (if c.first = true then enqLast { s with word := mwEnqWord c.cond.isSome old, sp := some t } k
               else enqFirst { s with word := mwEnqWord c.cond.isSome old, sp := some t } k) t
-              (PC.mwRelLd { c with hadW := old.waiting && !old.desig, first := false })).pc u).scan? = (s.pc u).scan? := by
+              (PC.mwRelLd { c with hadW := old.waiting, first := false })).pc u).scan? = (s.pc u).scan? := by
           intro u; by_cases hu : u = t
           · subst hu; simp [heq, PC.scan?]
           · split <;> simp [enqLast, enqFirst, setFn, hu]
         have hwkL : ∀ u, ((setPc (if c.first = true then enqLast { s with word := mwEnqWord c.cond.isSome old, sp := some t } k
               else enqFirst { s with word := mwEnqWord c.cond.isSome old, sp := some t } k) t
-              (PC.mwRelLd { c with hadW := old.waiting && !old.desig, first := false })).pc u).wakeL = (s.pc u).wakeL := by
+              (PC.mwRelLd { c with hadW := old.waiting, first := false })).pc u).wakeL = (s.pc u).wakeL := by
           intro u; by_cases hu : u = t
           · subst hu; simp [heq, PC.wakeL]
           · split <;> simp [enqLast, enqFirst, setFn, hu]
         have hwr : ∀ x, ((setPc (if c.first = true then enqLast { s with word := mwEnqWord c.cond.isSome old, sp := some t } k
               else enqFirst { s with word := mwEnqWord c.cond.isSome old, sp := some t } k) t
-              (PC.mwRelLd { c with hadW := old.waiting && !old.desig, first := false })).wr x).owner = (s.wr x).owner ∧
+              (PC.mwRelLd { c with hadW := old.waiting, first := false })).wr x).owner = (s.wr x).owner ∧
             ((setPc (if c.first = true then enqLast { s with word := mwEnqWord c.cond.isSome old, sp := some t } k
               else enqFirst { s with word := mwEnqWord c.cond.isSome old, sp := some t } k) t
-              (PC.mwRelLd { c with hadW := old.waiting && !old.desig, first := false })).wr x).waiting = (s.wr x).waiting := by
+              (PC.mwRelLd { c with hadW := old.waiting, first := false })).wr x).waiting = (s.wr x).waiting := by
           intro x; split <;> simp [enqLast, enqFirst, wr_of_merge]
         have hmemq : ∀ x, x ∈ (setPc (if c.first = true then enqLast { s with word := mwEnqWord c.cond.isSome old, sp := some t } k
               else enqFirst { s with word := mwEnqWord c.cond.isSome old, sp := some t } k) t
-              (PC.mwRelLd { c with hadW := old.waiting && !old.desig, first := false })).queue ↔ x = k ∨ x ∈ s.queue := by
+              (PC.mwRelLd { c with hadW := old.waiting, first := false })).queue ↔ x = k ∨ x ∈ s.queue := by
           intro x; split <;> simp [enqLast, enqFirst, or_comm]
         have hQ : ∀ x, Queued (setPc (if c.first = true then enqLast { s with word := mwEnqWord c.cond.isSome old, sp := some t } k
               else enqFirst { s with word := mwEnqWord c.cond.isSome old, sp := some t } k) t
-              (PC.mwRelLd { c with hadW := old.waiting && !old.desig, first := false })) x ↔ x = k ∨ Queued s x := by
+              (PC.mwRelLd { c with hadW := old.waiting, first := false })) x ↔ x = k ∨ Queued s x := by
           intro x
           simp only [Queued, hmemq, hsc]
           constructor
@@ -136,7 +136,7 @@ theorem inv4_stepCasC {s s' : State} {t : Tid} {o : Ord} {loc : Loc} {exp new ob
         · intro u v hu hv
           have e : ∀ w, ((setPc (if c.first = true then enqLast { s with word := mwEnqWord c.cond.isSome old, sp := some t } k
               else enqFirst { s with word := mwEnqWord c.cond.isSome old, sp := some t } k) t
-              (PC.mwRelLd { c with hadW := old.waiting && !old.desig, first := false })).pc w).unl = (s.pc w).unl := by
+              (PC.mwRelLd { c with hadW := old.waiting, first := false })).pc w).unl = (s.pc w).unl := by
             intro w; by_cases hw' : w = t
             · subst hw'; simp [heq, PC.unl]
             · split <;> simp [enqLast, enqFirst, setFn, hw']
